@@ -182,13 +182,30 @@ class BMC:
         with open(path, "w") as f:
             f.write("(set-logic QF_BV)\n" + s.to_smt2())
 
-    def safety(self, bad):
-        """Is a state satisfying `bad` (z3 term over pre-state constants) reachable within K steps?"""
-        return self.solve(lambda b: z3.Or(*[b.at(bad, k) for k in range(b.K + 1)]), [bad])
+    def safety(self, bad, exclude=()):
+        """Is a state satisfying `bad` (z3 term over pre-state constants) reachable within K steps?
+        `exclude`: schedules (lists of (step, transition index)) already seen, not to be returned again."""
+        return self.solve(lambda b: z3.And(z3.Or(*[b.at(bad, k) for k in range(b.K + 1)]), *b._not(exclude)), [bad])
 
-    def stuck(self, pred):
+    def stuck(self, pred, exclude=()):
         """Is a state with no enabled transition and satisfying `pred` reachable within K-1 steps?"""
-        return self.solve(lambda b: z3.Or(*[z3.And(b.idle[k], b.at(pred, k)) for k in range(b.K)]), [])
+        return self.solve(lambda b: z3.And(z3.Or(*[z3.And(b.idle[k], b.at(pred, k)) for k in range(b.K)]),
+                                           *b._not(exclude)), [])
+
+    def _not(self, schedules):
+        return [z3.Not(z3.And(*[self.fire[k][i] for k, i in sch])) for sch in schedules if sch]
+
+    def schedule(self, m):
+        """The firing sequence of a model: [(step, transition index)] up to the first idle step."""
+        out = []
+        for k in range(self.K):
+            if z3.is_true(m.eval(self.idle[k], model_completion=True)):
+                break
+            for i, f in enumerate(self.fire[k]):
+                if z3.is_true(m.eval(f, model_completion=True)):
+                    out.append((k, i))
+                    break
+        return out
 
     def reach(self, goal):
         return self.safety(goal)
